@@ -104,7 +104,7 @@ fn ext_families(thorough: bool) -> Vec<Family> {
     ];
     if thorough {
         v.push(fam("x-single-k1-c1-priv", &single, &ALLA, 1, 1, 4, 1, &[0, 1, 2, 3], 1));
-        v.push(fam("x-bin-k2-c1", &[VK::Add, VK::Sub, VK::Mul, VK::Div], &ALLA, 2, 1, 3, 0, &[0, 1, 2], 0));
+        v.push(fam("x-bin-k2-c1", &[VK::Add, VK::Sub, VK::Mul, VK::Div], &ALLA, 2, 1, 2, 0, &[0, 1, 2], 0));
         v.push(fam("x-mulkinds-k2-c1", &MULK, &CONN, 2, 1, 3, 0, &[2], 2));
         v.push(fam("x-horner-k3-c0", &[VK::Horner], &CONN, 3, 0, 2, 0, &[2], 3));
     }
@@ -332,7 +332,7 @@ fn main() {
 
     // budget fractions: D = 1 families, derived programs, configuration sweep, Horner shape sweep;
     // the rest (up to 0.98) belongs to the extension-field pass
-    let (cap_fam, cap_derived, cap_sweep, cap_shapes) = if ctx.quick() { (0.60, 0.66, 0.72, 0.74) } else { (0.66, 0.72, 0.78, 0.80) };
+    let (cap_fam, cap_derived, cap_sweep, cap_shapes) = if ctx.quick() { (0.68, 0.72, 0.77, 0.79) } else { (0.70, 0.75, 0.80, 0.82) };
     let mut fams = c10_families(!ctx.quick());
     if let Some(f) = ctx.opt("family") {
         fams = c10_families(true).into_iter().filter(|x| x.name == f).collect();
@@ -576,7 +576,7 @@ fn main() {
     let xfams = ext_families(!ctx.quick());
     let only_field = ctx.opt("field").map(|s| s.to_string());
     type Pass = fn(&Ctx, &Report, &[Family], f64) -> Value;
-    let passes: Vec<(&str, Pass)> = vec![("bb5", bb5::run_pass as Pass), ("bb4", bb4::run_pass as Pass), ("kb5", kb5::run_pass as Pass), ("gl2", gl2::run_pass as Pass)]
+    let passes: Vec<(&str, Pass)> = vec![("bb5", bb5::run_pass as Pass), ("kb5", kb5::run_pass as Pass), ("bb4", bb4::run_pass as Pass), ("gl2", gl2::run_pass as Pass)]
         .into_iter()
         .filter(|(t, _)| only_field.as_deref().is_none_or(|f| f == *t))
         .collect();
